@@ -283,6 +283,16 @@ def notation_formats(ctx, py: PyRepo):
             if fn is None:
                 raise AnalysisError(f'{tag}: format string is not static')
             ok, why = loop_coupled(fn, call)
+            if not ok:
+                # the definition and the format may be computed by helper functions of the module (`d = _definition(sym, n)`): decide
+                # on a copy of the function with those calls expanded in place
+                from ..core.pynormal import expand_assigned_calls
+                mfuncs = py.modules[mname].functions
+                fn2 = expand_assigned_calls(fn, lambda name: mfuncs.get(name))
+                call2 = [c for c in ast.walk(fn2) if isinstance(c, ast.Call) and (c.lineno, c.col_offset) == (call.lineno, call.col_offset)
+                         and ast.unparse(c.func) == ast.unparse(call.func)]
+                if len(call2) == 1 and ast.unparse(fn2) != ast.unparse(fn):
+                    ok, why = loop_coupled(fn2, call2[0])
             ctx.ob('format-covers-deps', tag, ok, f'notation built in a loop: {why}', where, facts={'mode': 'loop coupling'})
             continue
         try:
@@ -407,16 +417,27 @@ def argument_order(ctx, py: PyRepo):
     call = py.method('Notation', '__call__', 'pattern')
     rets = [p for p in PyEval().paths(call) if p.end[0] == 'return']
     args_name = call.args.vararg.arg if call.args.vararg else None
+    def enumerated(v):
+        """the map {0: args[0], 1: args[1], ..}: enumerate(args) handed to the map constructor, or the comprehension
+        {i: a for i, a in enumerate(args)} (key and value the two components, unfiltered)"""
+        en = (('call', ('name', 'enumerate'), (('param', args_name),), ()), ('call', ('name', 'enumerate'), (('param', '*' + args_name),), ()))
+        v = _strip_fd(v)
+        if v in en:
+            return True
+        if v[0] == 'comp' and v[1] == 'dictcomp' and len(v[3]) == 1 and not v[3][0][2] and v[3][0][1] in en and v[2][0] == 'pair':
+            names = [x.strip() for x in v[3][0][0].strip('()').split(',')]
+            return len(names) == 2 and v[2][1] == ('bound', names[0]) and v[2][2] == ('bound', names[1])
+        return False
     ok = bool(rets) and args_name is not None and all(
-        p.end[1][0] == 'call' and p.end[1][1] == ('name', 'Instantiate') and len(p.end[1][2]) == 2
-        and _strip_fd(p.end[1][2][1]) in (('call', ('name', 'enumerate'), (('param', args_name),), ()), ('call', ('name', 'enumerate'), (('param', '*' + args_name),), ())) for p in rets)
+        p.end[1][0] == 'call' and p.end[1][1] == ('name', 'Instantiate') and len(p.end[1][2]) == 2 and enumerated(p.end[1][2][1]) for p in rets)
     ctx.ob('argument-order', 'Notation.__call__', ok,
            'Notation.__call__ must store argument i under key i in argument order (frozendict(enumerate(args))): the renderer reads the '
            'values positionally', py.where('pattern', call))
     fn = py.method('Instantiate', 'instantiate', 'pattern')
     where = py.where('pattern', fn)
     n = 0
-    for p in PyEval().paths(fn):
+    from ..core.pypattern import private_helper_resolver
+    for p in PyEval(resolver=private_helper_resolver(py, 'Instantiate')).paths(fn):
         if p.end[0] != 'return':
             continue
         v = p.end[1]
